@@ -31,9 +31,12 @@ import (
 
 	"github.com/IrineSistiana/mosdns/v5/pkg/pool"
 	"github.com/IrineSistiana/mosdns/v5/pkg/upstream"
+	"github.com/IrineSistiana/mosdns/v5/pkg/upstream/transport"
 
 	"verifharness/lib/dnsadv"
+	"verifharness/lib/fakenet"
 	"verifharness/lib/loopnet"
+	"verifharness/lib/wire"
 )
 
 type holdServer struct {
@@ -312,4 +315,92 @@ func realUpstreams() {
 		u.Close()
 		srv.close()
 	}
+}
+
+// reuseSurplusStorm: a non-pipelined transport against a server that answers
+// every query twice. A surplus reply must never give a connection that is in use
+// back to the pool (limit 1): the pool's own snapshot must never show an idle
+// connection that carries a query, and mosdns' own "concurrent exchange calls"
+// assertion must never fire (a panic is reported by the driver). Which reply a
+// caller gets is not judged here (one reply per query is the stated scope of the
+// non-pipelined transport).
+func reuseSurplusStorm(seed int64, callers, perCaller int) {
+	caselog.Log(map[string]any{"reuse_surplus_storm": seed, "callers": callers, "per_caller": perCaller})
+	net := fakenet.NewNet()
+	var mu sync.Mutex
+	defr := map[*fakenet.Conn]*wire.Deframer{}
+	t := transport.NewReuseConnTransport(transport.ReuseConnOpts{
+		IdleTimeout: 30 * time.Second,
+		DialContext: func(ctx context.Context) (transport.NetConn, error) {
+			c := net.NewConn(true)
+			mu.Lock()
+			defr[c] = &wire.Deframer{}
+			mu.Unlock()
+			c.OnWrite = func(c *fakenet.Conn, data []byte) error {
+				mu.Lock()
+				msgs := defr[c].Feed(data)
+				mu.Unlock()
+				for _, m := range msgs {
+					qi, err := dnsadv.ParseQuery(m)
+					if err != nil {
+						continue
+					}
+					r := wire.Frame(dnsadv.Reply(qi.WireID, 0x8180, qi.QSect, fmt.Sprintf("storm/%d", qi.Seq), 0, 0))
+					c.Inject(r)
+					c.Inject(r) // the surplus copy
+				}
+				return nil
+			}
+			return c, nil
+		},
+	})
+	stop := make(chan struct{})
+	var sw sync.WaitGroup
+	sw.Add(1)
+	go func() {
+		defer sw.Done()
+		for {
+			select {
+			case <-stop:
+				return
+			default:
+			}
+			_, conns, idle, subset, busy := t.VerifSnapshot()
+			rep.Count("surplus_storm_snapshots", 1)
+			if !subset || idle > conns || busy > 0 {
+				rep.Violation("reuse-idle-set-inconsistent-surplus-reply", fmt.Sprintf("server answers twice: conns=%d idle=%d subset=%v idle-connections-that-carry-a-query=%d", conns, idle, subset, busy), map[string]any{"seed": seed})
+				return
+			}
+			time.Sleep(50 * time.Microsecond)
+		}
+	}()
+	var wg sync.WaitGroup
+	var okN, errN atomic.Int64
+	for c := 0; c < callers; c++ {
+		wg.Add(1)
+		go func() {
+			defer wg.Done()
+			for i := 0; i < perCaller; i++ {
+				seq := int(seqCtr.Add(1))
+				ctx, cancel := context.WithTimeout(context.Background(), 5*time.Second)
+				r, err := t.ExchangeContext(ctx, dnsadv.Query(uint16(seq), seq, 1, "c09", 1))
+				cancel()
+				if err == nil {
+					pool.ReleaseBuf(r)
+					okN.Add(1)
+				} else {
+					errN.Add(1)
+				}
+			}
+		}()
+	}
+	wg.Wait()
+	close(stop)
+	sw.Wait()
+	t.Close()
+	rep.Eval(1)
+	rep.Count("surplus_storm_calls_returned_a_reply", okN.Load())
+	rep.Count("surplus_storm_calls_failed", errN.Load())
+	rep.Count("surplus_storm_connections", int64(len(net.Conns())))
+	rep.Nontrivial(fmt.Sprintf("reuse-surplus-storm|%d|%d", callers, seed%64))
 }
